@@ -566,12 +566,20 @@ def correspondence(ctx):
             absorb(ctx, res, (merged[0], merged[1], merged[2], stats,
                               sum((p[4] for p in pending), []), pending[0][5]))
     res.extra['random_lists'] = res.evaluations - len(ex) - len(corpus)
+    # the per-author settings (`pr_author_options`) are one of the sources of a bypass this property names: the
+    # real loader of the settings file (PrAuthorsOptions.deserialize) and PullRequestJob.author_bypass against
+    # Model/AuthorOptions.lean (theorem C04_author_options), oracle: an author gets exactly the bypasses of his own entry
+    from . import authoropts
+    authoropts.run(ctx, res, (2000 if ctx.tier == 'quick' else 50000) * ctx.scale)
     return res
 
 
 def replay(ctx, payload):
     f = payload['failure']['input']
     res = Result()
+    if 'pr_author_options' in f:
+        from . import authoropts
+        return authoropts.replay(ctx, res, f)
     real_setup()
     case = case_of_json(f)
     out = _work(('cases', [case]))
